@@ -24,6 +24,17 @@ HEX_OF = z3.Function("hex_of", BSEQ, STR)
 FROMHEX = z3.Function("fromhex", STR, BSEQ)
 
 
+def digits_value(elems):
+    """sum of e_i * 256**(k-1-i): the big-endian value of a list of byte terms"""
+    k = len(elems)
+    terms = []
+    for i, e in enumerate(elems):
+        w = 1 << (8 * (k - 1 - i))
+        b = e
+        terms.append(b if w == 1 else b * z3.IntVal(w))
+    return terms[0] if len(terms) == 1 else z3.Sum(terms)
+
+
 def native_key(fn):
     mod = getattr(fn, "__module__", None)
     qn = getattr(fn, "__qualname__", None) or getattr(fn, "__name__", None)
@@ -103,23 +114,6 @@ class ModelsMixin(object):
                 return self.call_function(m, [b, a], {})
         self.py_raise(TypeError, "unsupported operand type(s)")
 
-    def _bv_of(self, v, width):
-        """bit-vector view of an int-like value at `width` bits (value assumed in range)"""
-        if isinstance(v, bool):
-            return z3.BitVecVal(int(v), width)
-        if isinstance(v, int):
-            return z3.BitVecVal(v, width)
-        if isinstance(v, SBool):
-            return z3.If(v.term, z3.BitVecVal(1, width), z3.BitVecVal(0, width))
-        if v.bv is not None:
-            w = v.bv.size()
-            if w == width:
-                return v.bv
-            if w < width:
-                return z3.ZeroExt(width - w, v.bv)
-            return None
-        return None
-
     def int_binop(self, op, a, b):
         ta, tb = int_term(a), int_term(b)
         if op is ast.Add:
@@ -171,41 +165,44 @@ class ModelsMixin(object):
         self.unsupported("int operator %s" % op.__name__)
 
     def int_bitop(self, op, a, b):
-        def width_of(v):
-            if isinstance(v, (bool, int)):
-                if int(v) < 0:
-                    return None
-                return max(int(v).bit_length(), 1)
-            if isinstance(v, SBool):
-                return 1
-            if v.bv is not None:
-                return v.bv.size()
-            return None
-        wa, wb = width_of(a), width_of(b)
-        if wa is not None and wb is not None:
-            w = max(wa, wb)
-            x, y = self._bv_of(a, w), self._bv_of(b, w)
-            r = {ast.BitAnd: x & y, ast.BitOr: x | y, ast.BitXor: x ^ y}[op]
-            r = z3.simplify(r)
-            return SInt(z3.BV2Int(r), bv=r)
-        # one side is a plain mathematical int: only constant masks are modelled
-        if wa is None and isinstance(b, int):
-            x, c = int_term(a), int(b)
-        elif wb is None and isinstance(a, int):
-            x, c = int_term(b), int(a)
+        """& | ^ on mathematical ints: modelled when one operand is a non-negative constant
+        (bit extraction by div/mod is exact for every integer, two's complement included)."""
+        if isinstance(b, (int, bool)) and not is_sym(b):
+            x, c, xs = int_term(a), int(b), a
+        elif isinstance(a, (int, bool)) and not is_sym(a):
+            x, c, xs = int_term(b), int(a), b
         else:
-            self.unsupported("bitwise operator on two unbounded symbolic ints")
+            # two symbolic operands of known width: bit by bit
+            na = a.nbits if isinstance(a, SInt) else (1 if isinstance(a, SBool) else None)
+            nb = b.nbits if isinstance(b, SInt) else (1 if isinstance(b, SBool) else None)
+            if na is None or nb is None or max(na, nb) > 16:
+                self.unsupported("bitwise operator on two symbolic ints of unknown width")
+            ta, tb = int_term(a), int_term(b)
+            tot = z3.IntVal(0)
+            for i in range(max(na, nb)):
+                ba = (ta / z3.IntVal(_pow2(i))) % 2
+                bb = (tb / z3.IntVal(_pow2(i))) % 2
+                if op is ast.BitAnd:
+                    bit = ba * bb
+                elif op is ast.BitOr:
+                    bit = ba + bb - ba * bb
+                else:
+                    bit = ba + bb - 2 * ba * bb
+                tot = tot + bit * z3.IntVal(_pow2(i))
+            return SInt(tot, nbits=max(na, nb))
         if c < 0:
             self.unsupported("bitwise operator with negative constant")
         andv = z3.IntVal(0)
         for i in range(c.bit_length()):
             if (c >> i) & 1:
                 andv = andv + ((x / z3.IntVal(_pow2(i))) % 2) * z3.IntVal(_pow2(i))
+        nb = xs.nbits if isinstance(xs, SInt) else (1 if isinstance(xs, SBool) else None)
         if op is ast.BitAnd:
-            return SInt(andv)
+            return SInt(andv, nbits=max(c.bit_length(), 1))
+        wid = None if nb is None else max(nb, c.bit_length())
         if op is ast.BitOr:
-            return SInt(x + z3.IntVal(c) - andv)
-        return SInt(x + z3.IntVal(c) - 2 * andv)
+            return SInt(x + z3.IntVal(c) - andv, nbits=wid)
+        return SInt(x + z3.IntVal(c) - 2 * andv, nbits=wid)
 
     # ================================================================ sequences
     def bytes_concat(self, parts):
@@ -251,9 +248,11 @@ class ModelsMixin(object):
         if isinstance(v, SBytes):
             if v.elems is not None:
                 return len(v.elems)
-            return SInt(z3.Length(v.term))
+            ln = z3.simplify(z3.Length(v.term))
+            return ln.as_long() if z3.is_int_value(ln) else SInt(ln)
         if isinstance(v, SStr):
-            return SInt(z3.Length(v.term))
+            ln = z3.simplify(z3.Length(v.term))
+            return ln.as_long() if z3.is_int_value(ln) else SInt(ln)
         if isinstance(v, SSeq):
             return SInt(z3.Length(v.term))
         if isinstance(v, SObj):
@@ -385,16 +384,17 @@ class ModelsMixin(object):
             if not is_sym(k):
                 i = self.norm_index(k, None, len(el))
                 e = el[i]
-                return SInt(z3.BV2Int(e), bv=e)
+                return SInt(e, nbits=8)
             i = self.norm_index(k, None, len(el))
             ii = self.concretize_int(SInt(i) if not isinstance(i, int) else i, 70, "byte index")
             e = el[ii]
-            return SInt(z3.BV2Int(e), bv=e)
+            return SInt(e, nbits=8)
         term = bytes_term(c)
         i = self.norm_index(k, z3.Length(term), None)
         it = i if not isinstance(i, int) else z3.IntVal(i)
         e = z3.simplify(term[it])
-        return SInt(z3.BV2Int(e), bv=e)
+        self.assume_raw(z3.And(e >= 0, e <= 255))
+        return SInt(e, nbits=8)
 
     def str_getitem(self, c, k):
         from .interp import SymSlice
@@ -552,12 +552,6 @@ class ModelsMixin(object):
             except Exception as e:  # noqa
                 self.py_raise(type(e), *e.args)
         if is_intlike(a) and is_intlike(b):
-            if isinstance(a, SInt) and a.bv is not None and isinstance(b, int) and not isinstance(b, bool) \
-                    and 0 <= b < (1 << a.bv.size()):
-                return SBool(a.bv == z3.BitVecVal(b, a.bv.size()))
-            if isinstance(b, SInt) and b.bv is not None and isinstance(a, int) and not isinstance(a, bool) \
-                    and 0 <= a < (1 << b.bv.size()):
-                return SBool(b.bv == z3.BitVecVal(a, b.bv.size()))
             return SBool(int_term(a) == int_term(b))
         if is_byteslike(a) and is_byteslike(b):
             ea, eb = bytes_elems(a), bytes_elems(b)
@@ -775,12 +769,21 @@ class ModelsMixin(object):
         return self.be_bytes(t, length)
 
     def be_bytes(self, t, length):
-        """big-endian bytes of an Int term known to be in [0, 256**length)"""
+        """big-endian bytes of an Int term known to be in [0, 256**length): fresh byte constants
+        tied to t by the base-256 digit equation (pure linear arithmetic, no int2bv)"""
         if length == 0:
             return b""
-        bv = z3.Int2BV(t, 8 * length)
-        elems = [z3.simplify(z3.Extract(8 * (length - i) - 1, 8 * (length - i - 1), bv))
-                 for i in range(length)]
+        t = z3.simplify(t)
+        key = (t.get_id(), length)
+        hit = self.be_cache.get(key)
+        if hit is not None:
+            return SBytes(elems=hit[1], asint=t)
+        nm = self.fresh_name("be%d" % length)
+        elems = [z3.Int("%s.%d" % (nm, i)) for i in range(length)]
+        for e in elems:
+            self.assume_raw(z3.And(e >= 0, e <= 255))
+        self.assume_raw(t == digits_value(elems))
+        self.be_cache[key] = (t, elems)
         return SBytes(elems=elems, asint=t)
 
     def bytes_method(self, recv, name, args, kwargs):
@@ -791,7 +794,7 @@ class ModelsMixin(object):
             if el is not None:
                 parts = []
                 for e in el.elems:
-                    for nib in (z3.Extract(7, 4, e), z3.Extract(3, 0, e)):
+                    for nib in (e / 16, e % 16):
                         parts.append(SStr(self._nibble_char(nib)))
                 return self.str_concat(parts) if parts else ""
             return SStr(HEX_OF(recv.term))
@@ -831,7 +834,7 @@ class ModelsMixin(object):
     def _nibble_char(self, nib):
         t = z3.StringVal("f")
         for v in range(14, -1, -1):
-            t = z3.If(nib == z3.BitVecVal(v, 4), z3.StringVal("0123456789abcdef"[v]), t)
+            t = z3.If(nib == z3.IntVal(v), z3.StringVal("0123456789abcdef"[v]), t)
         return t
 
     def str_method(self, recv, name, args, kwargs):
@@ -1004,15 +1007,16 @@ def _m_int_from_bytes(ctx, args, kwargs):
     if not is_sym(b):
         return int.from_bytes(b, "big")
     if b.asint is not None:
-        return SInt(b.asint, bv=z3.Concat(*b.elems) if len(b.elems) > 1 else b.elems[0])
+        return SInt(b.asint, nbits=8 * len(b.elems))
     f = ctx.fix_bytes(b)
     if f is None:
         ctx.unsupported("int.from_bytes on bytes of symbolic length")
     if len(f.elems) == 0:
         return 0
-    bv = z3.Concat(*f.elems) if len(f.elems) > 1 else f.elems[0]
-    bv = z3.simplify(bv)
-    return SInt(z3.BV2Int(bv), bv=bv)
+    dv = z3.simplify(digits_value(f.elems))
+    # meta-level inverse: be(from_bytes(e), k) is e itself
+    ctx.be_cache.setdefault((dv.get_id(), len(f.elems)), (dv, list(f.elems)))
+    return SInt(dv, nbits=8 * len(f.elems))
 
 
 _STRUCT_FMT = {">B": (1, False), ">H": (2, False), ">L": (4, False), ">I": (4, False),
@@ -1043,11 +1047,10 @@ def _m_struct_pack(ctx, args, kwargs):
     if ctx.branch(z3.Or(t < lo, t > hi)):
         ctx.py_raise(_struct.error, "argument out of range")
     if signed:
-        bv = z3.Int2BV(t, 8 * k)
-        elems = [z3.simplify(z3.Extract(8 * (k - i) - 1, 8 * (k - i - 1), bv)) for i in range(k)]
         if ctx.entails(t >= 0):
-            return SBytes(elems=elems, asint=t)
-        return SBytes(elems=elems)
+            return ctx.be_bytes(t, k)
+        # two's complement
+        return ctx.be_bytes(z3.If(t < 0, t + z3.IntVal(1 << (8 * k)), t), k)
     return ctx.be_bytes(t, k)
 
 
@@ -1057,16 +1060,14 @@ def _byte_elem(ctx, v):
     if isinstance(v, int):
         if not 0 <= v < 256:
             ctx.py_raise(ValueError, "bytes must be in range(0, 256)")
-        return z3.BitVecVal(v, 8)
+        return z3.IntVal(v)
     if isinstance(v, (SInt, SBool)):
-        if isinstance(v, SInt) and v.bv is not None and v.bv.size() == 8:
-            return v.bv
         t = int_term(v)
+        if isinstance(v, SInt) and v.nbits is not None and v.nbits <= 8:
+            return t
         if ctx.branch(z3.Or(t < 0, t > 255)):
             ctx.py_raise(ValueError, "bytes must be in range(0, 256)")
-        if isinstance(v, SInt) and v.bv is not None and v.bv.size() > 8:
-            return z3.simplify(z3.Extract(7, 0, v.bv))
-        return z3.Int2BV(t, 8)
+        return t
     ctx.py_raise(TypeError, "'%s' object cannot be interpreted as an integer" % ctx.type_of(v).__name__)
 
 
